@@ -74,7 +74,11 @@ def normalize_pair(req, impl, model):
     elif "invalid-tag" in impl:
         impl = "(ub bulk-tag)"
     # genuine allocation failure on an absurd declared length is exempt; the model answers eof/alloc
-    if impl == "(panic oom)" and model in ("(err eof)", "(err alloc)"):
+    # (the implementation may run out of memory before it reaches the error the model predicts)
+    if impl in ("(panic oom)", "(abort 6)") and model.startswith("(err "):
+        impl = model
+    # compressed payloads are not interpreted by the model (bzip2 is a parameter): any error agrees
+    if model == "(compressed)" and not impl.startswith("(panic"):
         impl = model
     return impl, model
 
